@@ -110,13 +110,15 @@ class C07(Property):
             d = c06.random_config(rng, tier)
             d["nframes"] = rng.choice([1, 2, 2, 3] + ([4] if big else []))
             d["loops"] = rng.choice([1, 1, 2])
+            if d.get("indefinite"):  # an INDEFINITE stream run to completion, draw()'s default loops / cache
+                d.update(nframes=rng.choice([3, 4]), loops=-1, cache=100)
             nconf = getattr(self, "_nconf", 0)
             self._nconf = nconf + 1
             if nconf % 8 == 1:
                 # old-API kitty animation whose frames differ in payload size: at least one frame's transmission
                 # spans several chunks (m=1 … m=0), the LAST frame fits in one; cached, >= 2 passes, so that a
                 # chunked frame is written from the cache after an unchunked one was the last to be rendered
-                d.update(api="old", style="kitty", method="whole", term=rng.choice(["kitty", "konsole"]), mix=False,
+                d.update(api="old", style="kitty", method="whole", indefinite=False, term=rng.choice(["kitty", "konsole"]), mix=False,
                          animate=True, tty=True, cache=True, loops=rng.choice([2, 2, 3]), cell=[10, 20], px=80,
                          cols=8, lines=4, by_width=rng.random() < 0.5)
                 d["kitty_version"] = rng.choice([[0, 25, 0], [0, 30, 1]]) if d["term"] == "kitty" else []
@@ -154,7 +156,8 @@ class C07(Property):
             yield Case("", dd, f"{d['api']}-{d['style']}-{'anim' if anim else 'still'}-nofault", True)
             ks = list(range(nbody))
             if not big and nbody > 16:
-                ks = sorted(set(ks[:6] + ks[-5:] + rng.sample(ks, 5)))
+                # … and EVERY sleep (between frames and the final one after the last frame)
+                ks = sorted(set(ks[:6] + ks[-5:] + rng.sample(ks, 5) + [k for k in ks if log[k] == "sleep"][-4:]))
                 if d.get("frame_kinds"):  # the frame writes of the later (cached) passes
                     later = [k for k in range(nbody // 2, nbody) if log[k] == "write"]
                     ks = sorted(set(ks[:3] + rng.sample(later, min(5, len(later)))))
@@ -285,7 +288,10 @@ class C07(Property):
                 # a Ctrl-C there propagates in both APIs; nothing is claimed about them
                 first_render = d["_log"].index("render") if "render" in d["_log"] else len(d["_log"])
                 if exc == "kbd" and d["_outcome"] != "returned" and d["plan"]["k"] >= first_render:
-                    in_inner_finally = d["api"] == "new" and d["_log"][d["plan"]["k"]:].count("write") <= 3 \
+                    # the animation's own clean-up = the inner `finally`'s cursor_down write + flush; a sleep or a
+                    # render — in particular the FINAL sleep after the last frame — is never part of it
+                    in_inner_finally = d["api"] == "new" and fired[0] in ("write", "flush") \
+                        and d["_log"][d["plan"]["k"]:].count("write") <= 3 \
                         and d["_log"][d["plan"]["k"] + 1:].count("sleep") == 0
                     if not in_inner_finally:
                         return Failure(f"not-silent/{where}", f"animation did not end silently on Ctrl-C ({d['_outcome']}); {at}")
